@@ -1,28 +1,27 @@
 (* Conversions between OCaml ints/strings and the Coq datatypes kept by the
    extraction (positive, N, Z, nat).  Compiled against whichever model.ml the
    property extracted. *)
-open Model
 
 let rec pos_of_int n =
-  if n <= 1 then XH
-  else if n land 1 = 0 then XO (pos_of_int (n lsr 1))
-  else XI (pos_of_int (n lsr 1))
+  if n <= 1 then Model.XH
+  else if n land 1 = 0 then Model.XO (pos_of_int (n lsr 1))
+  else Model.XI (pos_of_int (n lsr 1))
 
-let n_of_int n = if n <= 0 then N0 else Npos (pos_of_int n)
+let n_of_int n = if n <= 0 then Model.N0 else Model.Npos (pos_of_int n)
 
 let rec int_of_pos = function
-  | XH -> 1
-  | XO p -> 2 * int_of_pos p
-  | XI p -> 2 * int_of_pos p + 1
+  | Model.XH -> 1
+  | Model.XO p -> 2 * int_of_pos p
+  | Model.XI p -> 2 * int_of_pos p + 1
 
-let int_of_n = function N0 -> 0 | Npos p -> int_of_pos p
+let int_of_n = function Model.N0 -> 0 | Model.Npos p -> int_of_pos p
 
 let nat_of_int n =
-  let rec go acc k = if k <= 0 then acc else go (S acc) (k - 1) in
-  go O n
+  let rec go acc k = if k <= 0 then acc else go (Model.S acc) (k - 1) in
+  go Model.O n
 
 let int_of_nat n =
-  let rec go acc = function O -> acc | S m -> go (acc + 1) m in
+  let rec go acc = function Model.O -> acc | Model.S m -> go (acc + 1) m in
   go 0 n
 
 let hexval c =
@@ -33,7 +32,7 @@ let hexval c =
   | _ -> failwith "bad hex"
 
 (* "-" is the empty string *)
-let bytes_of_hex (s : string) : n list =
+let bytes_of_hex (s : string) (* : Model.n list *) =
   if s = "-" then []
   else begin
     let len = String.length s / 2 in
@@ -44,7 +43,7 @@ let bytes_of_hex (s : string) : n list =
     go (len - 1) []
   end
 
-let hex_of_bytes (l : n list) : string =
+let hex_of_bytes (l (* : Model.n list *)) : string =
   match l with
   | [] -> "-"
   | _ ->
@@ -63,3 +62,4 @@ let iter_lines (path : string) (f : string -> unit) : unit =
      done
    with End_of_file -> ());
   close_in ic
+
